@@ -571,8 +571,10 @@ def make_carrier(env: _Env, kind, tag):
     elif kind == "vars-created-here":
         # Vars (arguments, a constant) that come into being where the carrier is created - possibly inside a block -
         # and are operated on later: what `a + b` / a warning-prone construction does is decided at the time of use
-        a, b, i64, unk = (argument(Tensor(np.float32, ())), argument(Tensor(np.float32, ())), argument(Tensor(np.int64, ())),
-                          argument(Tensor(np.float32)))
+        with warnings.catch_warnings():
+            warnings.simplefilter("ignore")
+            a, b, i64, unk = (argument(Tensor(np.float32, ())), argument(Tensor(np.float32, ())), argument(Tensor(np.int64, ())),
+                              argument(Tensor(np.float32)))
 
         def use():
             def disp(f):
@@ -951,7 +953,7 @@ def run(ck: core.Check):
     bstats = {"histories": 0, "behaviour_snapshots": 0, "mismatches": 0}
     try:
         env.prepare_probes()
-        env.asym_left = ck.pick(18, 400)
+        env.asym_left = ck.pick(18, 150)
         base = baselines(env, ck)
         ck.cov["behaviour_baselines"] = {MANAGERS[j]: base[j] for j in range(3)}
         ck.cov["behaviour_baselines"]["asymmetric_operators_per_backend"] = base[3] if len(base) > 3 else None
@@ -1013,7 +1015,7 @@ def run(ck: core.Check):
     try:
         if not hasattr(env, "p_const"):
             env.prepare_probes()
-        n_car = ck.pick(35, 630)
+        n_car = ck.pick(35, 315)
         scs_ = [gen_carrier_scenario(rng, k) for k in range(n_car)]
         try:
             cmodel = ck.driver().ask_many("C16", [{"init": sc["init"], "blocks": strip(sc["blocks"])} for sc in scs_])
